@@ -11,7 +11,7 @@ ID = "C03"
 LEVEL = "fault_enumeration"
 RULE = ("for authentic reference-built packets of chosen frame lengths: every single-bit flip at every bit position, every "
         "truncation length 0..n-1, all 255 substitutions of each start-marker / length-field byte, a catalogue of 16-bit length values (alone and with a corrupted payload byte), single-byte substitutions, random multi-byte corruptions, fed to _Packet.decode (and a sample "
-        "through LAN.send with the simulated device sending the corrupted packet, on V2 connections and tunnelled inside correctly tagged V3 encrypted responses). The authentic packet itself is accepted first and again every three corruptions (a receiver that remembers what it verified must still reject altered copies). Outcome classes: ProtocolError (required), "
+        "through LAN.send with the simulated device sending the corrupted packet, on V2 connections and tunnelled inside correctly tagged V3 encrypted responses, as the reply to the first transmission or to a retransmission after 1-2 lost ones). An authentic packet followed in the same chunk by other bytes (random, a second packet with or without its header, validly padded cipher blocks) must give a protocol error or exactly the signed frame. The authentic packet itself is accepted first and again every three corruptions (a receiver that remembers what it verified must still reject altered copies). Outcome classes: ProtocolError (required), "
         "frame returned / other exception (violation). A corruption the reference still accepts as authentic is skipped and counted. "
         "distinct = (frame length, fault kind, position, value); all are non-trivial (the packet differs from an authentic one)")
 ASSUMPTIONS = ["a corruption producing a valid keyed MD5 by chance is skipped (none observed)",
@@ -48,12 +48,14 @@ def generate(ctx, rng):
         yield ("multi", L), {**base, "fault": "multi", "n": 40 if quick else 3000, "mseed": rng.getrandbits(32)}
         # every value of each byte of the start marker / length field, and a catalogue of 16-bit length values
         yield ("lenfield", L), {**base, "fault": "lenfield"}
+        # bytes that follow an authentic packet in the same chunk (they are not covered by its signature)
+        yield ("tail", L), {**base, "fault": "tail", "mseed": rng.getrandbits(32)}
     n_wire = 300 if quick else 6000
     for j in range(n_wire):
         L = rng.choice(Q_LENGTHS)
         yield ("wire", j), {"frame": rng.randbytes(L), "id": rng.getrandbits(48), "filler": {}, "fault": "wire",
                             "wkind": rng.choice(["flip", "trunc", "subst", "multi", "len0"]), "mseed": rng.getrandbits(32),
-                            "version": 2 if j % 2 else 3}
+                            "version": 2 if j % 2 else 3, "drop_first": [0, 0, 0, 1, 2][j % 5]}
 
 
 _since_authentic = [0]
@@ -144,6 +146,8 @@ def run_case(ctx, case):
             if n > 60:
                 c[44] ^= 0x5A
                 _judge(ctx, case, frame, pkt, bytes(c), ("length+payload", val))
+    elif fault == "tail":
+        _tails(ctx, case, frame, pkt)
     elif fault == "multi":
         r = random.Random(case["mseed"])
         for i in range(case["n"]):
@@ -167,6 +171,38 @@ def run_case(ctx, case):
             _judge(ctx, case, frame, pkt, bytes(c), ("multi", case["mseed"], i))
     elif fault == "wire":
         _wire(ctx, case, frame, pkt)
+
+
+def _tails(ctx, case, frame, pkt):
+    """authentic packet + trailing bytes in one chunk: the result is either a protocol error or exactly the signed frame."""
+    import random
+    from ..ref import prim
+    r = random.Random(case["mseed"])
+    other = v2.build(r.randbytes(r.randint(0, 40)), case["id"])
+    tails = {"one-byte": r.randbytes(1), "random-16": r.randbytes(16), "random-n": r.randbytes(r.randint(2, 90)),
+             "second-packet": other, "second-packet-without-header": other[40:], "second-packet-body-only": other[40:-16],
+             "own-ciphertext-again": pkt[40:-16], "own-body-and-signature-again": pkt[40:],
+             "valid-padded-blocks": v2.build(r.randbytes(r.randint(1, 60)), 1)[40:-16], "zeros-32": bytes(32)}
+    for name, tail in tails.items():
+        if not tail:
+            continue
+        chunk = pkt + tail
+        key = (len(frame), ("tail", name, len(tail)))
+        try:
+            got = _Packet.decode(chunk)
+        except ProtocolError:
+            ctx.count(key, kind="tail-protocol-error")
+            continue
+        except Exception as e:  # noqa: BLE001
+            ctx.count(key, kind="other-exception")
+            ctx.violation("other-exception", f"{type(e).__name__} for an authentic packet followed by {name}", case, {"chunk": chunk})
+            continue
+        if bytes(got) == frame:
+            ctx.count(key, kind="tail-ignored-signed-frame-returned")
+        else:
+            ctx.count(key, kind="frame-returned")
+            ctx.violation("unsigned-bytes-decoded", f"authentic packet followed by {name} ({len(tail)} bytes) decoded to {len(got)} bytes that "
+                          f"are not the signed frame", case, {"chunk": chunk, "got": bytes(got)})
 
 
 def _wire(ctx, case, frame, pkt):
@@ -202,7 +238,7 @@ def _wire(ctx, case, frame, pkt):
     else:
         dev.on_exchange = lambda conn, req, packets, meta: [(0, corrupted)]
 
-    first = {"n": 0}
+    first = {"n": 0, "silent": 0}
     corrupt_hook = dev.on_exchange
 
     def on_exchange(conn, req, packets, meta):
@@ -211,6 +247,9 @@ def _wire(ctx, case, frame, pkt):
             # the authentic packet is delivered (and accepted) first, its altered copy on the next exchange
             good = pkt if version == 2 else __import__("mv.ref.v3", fromlist=["x"]).build_encrypted(conn.skey, pkt, 3, 3)
             return [(0, good)]
+        if first["silent"] < case.get("drop_first", 0):
+            first["silent"] += 1      # this transmission is lost; the corrupted packet answers a retransmission
+            return []
         return corrupt_hook(conn, req, packets, meta)
 
     dev.on_exchange = on_exchange
@@ -225,7 +264,7 @@ def _wire(ctx, case, frame, pkt):
                 raise AssertionError("authentic packet not accepted in the wire case")
         return await lan.send(b"\xaa\x0b\xac" + bytes(8))
 
-    key = (len(frame), ("wire", k, case["mseed"], version))
+    key = (len(frame), ("wire", k, case["mseed"], version, case.get("drop_first", 0)))
     try:
         got, loop = H.run_virtual(go, net)
     except ProtocolError:
